@@ -323,6 +323,35 @@ def mk_window(step_hundredths):
     return body
 
 
+def mk_window_on_the_real_grid(nwin):
+    def body(ctx):
+        """as O4-window, with the profile computed on the real pH grid (lib.make_grid(0, 14, 0.1): the doubles min + i*step with
+        their floating-point noise, e.g. 7.800000000000001) and a window whose ends are the decimals the user types (tenths):
+        exactly the rows lo, lo+0.1, ..., hi are printed -- both ends included"""
+        import propka.output as O
+        from propka.lib import make_grid
+        lo_t = ctx.int('window_lo_tenths', 0, 140 - (nwin - 1))
+        hi_t = lo_t + (nwin - 1)
+        lo, hi = (lo_t / 10.0, hi_t / 10.0) if ctx.native else (lo_t / 10, hi_t / 10)
+        mol = H.molecule(options=H.Opts(window=(lo, hi, 0.1), grid=(0.0, 14.0, 0.1)))
+        prof = [(ph, 0.01 * i) for i, ph in enumerate(make_grid(0.0, 14.0, 0.1))]
+        ctx.claim('grid-has-141-points', len(prof) == 141)
+        mol.get_folding_profile = lambda conformation='AVR', reference='neutral', grid=None: (prof, (prof[0][0], prof[0][1]), (None, None), (None, None))
+        markers.enable(ctx)
+        text = markers.text_of(O.get_folding_profile_section(mol, conformation='AVR', reference='neutral', window=(lo, hi, 0.1)))
+        body_lines = []
+        for ln in text.split('\n')[2:]:
+            if not ln.strip():
+                break
+            body_lines.append(ln)
+        printed = [markers.fields(ctx, ln)[0][0] for ln in body_lines]
+        ctx.claim('one-row-per-window-point', len(printed) == nwin, detail='%d rows for a window of %d points' % (len(printed), nwin))
+        for j in (0, nwin - 1):
+            want = (lo_t + j) / 10.0 if ctx.native else (lo_t + j) / 10
+            ctx.claim('window-end-printed', Or(*[markers.shown(ctx, x, want) for x in printed]) if printed else False, detail='end %d' % j)
+    return body
+
+
 def obligations(tier):
     G = 'propka/group.py:Group.'
     obs = []
@@ -373,6 +402,11 @@ def obligations(tier):
                                      'hundredths in [0,14]' % (st / 100.0),
                               shims=['decimal.Decimal -> exact symbolic decimal', 'format markers', 'get_folding_profile -> symbolic profile'],
                               claim_doc='printed pH values == profile points lying on lo + j*step <= hi', max_paths=100000, shards=4, wall_s=170))
+    for nwin in ((2, 11) if tier == 'quick' else (2, 3, 11, 41)):
+        obs.append(Obligation('O4-window-on-the-real-grid[%d points]' % nwin, mk_window_on_the_real_grid(nwin), code=['propka/output.py:get_folding_profile_section', 'propka/lib.py:make_grid'],
+                              bounds='profile on the real grid make_grid(0, 14, 0.1) (141 doubles with their rounding noise); window of %d points with step 0.1 whose start is lo/10, lo symbolic integer in [0, %d]' % (nwin, 140 - (nwin - 1)),
+                              shims=['decimal.Decimal -> exact symbolic decimal', 'format markers', 'get_folding_profile -> the real grid with concrete values'],
+                              claim_doc='exactly one row per window point; both window ends are printed', max_paths=5000, wall_s=170 if tier == 'quick' else 900, split_input=('window_lo_tenths', 8)))
     return obs
 
 
